@@ -11,10 +11,10 @@ COMMON = dict(
                (r'\bramalhete_queue::backoff retry_backoff;', '', 'drop_backoff_decl'),
                (r'\b(retry_)?backoff\(\);', 'XV_BACKOFF();', 'backoff_call'),
                (r'\bguard_ptr (\w+);', r'guard_ptr \1 = 0;', 'guard_default_ctor'),
-               (r'\bnode\* new_node = new node\(raw_val\);', 'marked_ptr new_node = XV_NEW_NODE(raw_val);', 'new_node'),
-               (r'\bauto n = new node\(nullptr\);', 'marked_ptr n = XV_NEW_NODE(0);', 'new_node'),
-               (r'\bdelete new_node;', 'XV_DELETE_NODE(new_node);', 'delete_node'),
-               (r'\bdelete n\.get\(\);', 'XV_DELETE_NODE(n);', 'delete_node')],
+               (r'\bnode\* (\w+) = new node\((\w+)\);', r'marked_ptr \1 = XV_NEW_NODE(\2);', 'new_node'),
+               (r'\bauto (\w+) = new node\(nullptr\);', r'marked_ptr \1 = XV_NEW_NODE(0);', 'new_node'),
+               (r'\bdelete (\w+);', r'XV_DELETE_NODE(\1);', 'delete_node'),
+               (r'\bdelete (\w+)\.get\(\);', r'XV_DELETE_NODE(\1);', 'delete_node')],
     subst=[(r'\btraits::', 'TR_', 'traits'), (r'\bstd::ignore\s*=', '(void)', 'ignore'), (r'\bstd::nullopt\b', 'XV_NULLOPT', 'nullopt'),
            (r'\bmarked_(ptr|value)\b(?!\()', r'marked_\1_t', 'type_name')],
     deref={'t': 'GDEREF', 'h': 'GDEREF', 'new_node': 'GDEREF', 'n': 'GDEREF'},
@@ -52,13 +52,14 @@ def shape_runs(rid, entry, shapes, quick, **kw):
     return rs
 
 ES = [1, 2, 3, 4, 5, 8]
+CADICAL = ['--sat-solver', 'cadical']      # minisat has pathological cases on the counter arithmetic (minutes instead of seconds)
 def per_e(rid, entry, quick_es, unwind, es=ES, **kw):
     rs = []
     for e in es:
         d = {'XV_E': e}; d.update(kw.get('defs', {}))
         k = dict(kw); k.pop('defs', None)
         rs.append(dict(k, id='%s_e%d' % (rid, e), entry=entry, tiers=['quick', 'thorough'] if e in quick_es else ['thorough'],
-                       defs=d, unwindset=unwind(e)))
+                       defs=d, unwindset=unwind(e), solver=CADICAL))
     return rs
 def per_er(rid, entry, quick, unwind, shapes, **kw):
     rs = []
@@ -66,29 +67,28 @@ def per_er(rid, entry, quick, unwind, shapes, **kw):
         d = {'XV_E': e, 'XV_R': r}; d.update(kw.get('defs', {}))
         k = dict(kw); k.pop('defs', None)
         rs.append(dict(k, id='%s_e%d_r%d' % (rid, e, r), entry=entry, tiers=['quick', 'thorough'] if (e, r) in quick else ['thorough'],
-                       defs=d, unwindset=unwind(e, r)))
+                       defs=d, unwindset=unwind(e, r), solver=CADICAL))
     return rs
 ER = [(e, r) for e in ES for r in (0, 1, 2)]
 RUNS = (
-  per_e('node_ctor', 'h_node_ctor', ES, lambda e: ['ram_node_ctor.0:%d' % (e + 1)], cls='shape-complete')
+  per_e('node_ctor', 'h_node_ctor', [1, 3, 8], lambda e: ['ram_node_ctor.0:%d' % (e + 1)], cls='shape-complete')
   + per_e('node_dtor', 'h_node_dtor', ES, lambda e: ['ram_node_dtor.0:%d' % (e + 3 + 2)], cls='shape-complete', defs={'XV_DTOR_BOUNDED': 1, 'XV_OV': 3},
           note='pop_idx, push_idx up to 3 tickets beyond max_idx (three threads hit the full / drained node)')
-  + per_e('node_dtor_any', 'h_node_dtor', ES, lambda e: ['ram_node_dtor.0:%d' % (e + 2)], cls='shape-complete', unwind_obligation='ram.node_dtor.owned_only',
-          solver=['--sat-solver', 'cadical'],
+  + per_e('node_dtor_any', 'h_node_dtor', [2, 5], lambda e: ['ram_node_dtor.0:%d' % (e + 2)], cls='shape-complete', unwind_obligation='ram.node_dtor.owned_only',
           note='pop_idx, push_idx any multiples of step_size below 2^27*step_size; ~node must finish within entries_per_node iterations')
   + per_e('ctor', 'h_ctor', [1, 4], lambda e: ['ram_node_ctor.0:%d' % (e + 1)], cls='shape-complete')
   + per_e('dtor', 'h_dtor', [1, 4], lambda e: ['ram_dtor.0:5'], cls='shape-complete', note='list of 1..3 nodes plus unlisted nodes')
-  + per_e('push', 'h_push', ES, lambda e: ['ram_node_ctor.0:%d' % (e + 1), 'ram_node_dtor.0:%d' % (e + 2)], cls='shape-complete',
+  + per_e('push', 'h_push', [1, 2, 4], lambda e: ['ram_node_ctor.0:%d' % (e + 1), 'ram_node_dtor.0:%d' % (e + 2)], cls='shape-complete',
           note='loop cut by invariant PUSHSEQ; counters unbounded, entries_per_node is the shape')
-  + per_er('pop', 'h_pop', ER, lambda e, r: ['ram_pop_seq.%d:%d' % (i, r + 2) for i in range(3)], ER, cls='shape-complete',
+  + per_er('pop', 'h_pop', [(1, 1), (2, 0), (2, 1), (4, 2)], lambda e, r: ['ram_pop_seq.%d:%d' % (i, r + 2) for i in range(3)], ER, cls='shape-complete',
            note='loop cut by invariant POPSEQ; inner retry loop unwound pop_retries+1 times')
   + per_e('push_unwound', 'h_push', [], lambda e: ['ram_push.0:%d' % (e + 3), 'ram_push.1:%d' % (e + 3), 'ram_node_ctor.0:%d' % (e + 1), 'ram_node_dtor.0:%d' % (e + 2)],
           es=[1, 2], cls='shape-complete', defs={'XV_UNCUT': 1}, note='cross-check of the cut-loop runs: the original loop, completely unwound')
   + per_er('pop_unwound', 'h_pop', [], lambda e, r: ['ram_pop.%d:%d' % (i, max(3 * e + 4, r + 2)) for i in range(2)], [(1, 1), (2, 1)], cls='shape-complete',
            defs={'XV_UNCUT': 1}, note='cross-check of the cut-loop runs: the original loop, completely unwound')
   + per_e('try_pop', 'h_try_pop', [4], lambda e: [], es=[4], cls='unbounded')
-  + per_e('push_int', 'h_push_int', ES, lambda e: ['ram_node_ctor.0:%d' % (e + 1), 'ram_node_dtor.0:%d' % (e + 2)], mode='INT', cls='shape-complete')
-  + per_er('pop_int', 'h_pop_int', ER, lambda e, r: ['ram_pop_cut.%d:%d' % (i, r + 2) for i in range(3)], ER, mode='INT', cls='shape-complete')
+  + per_e('push_int', 'h_push_int', [2], lambda e: ['ram_node_ctor.0:%d' % (e + 1), 'ram_node_dtor.0:%d' % (e + 2)], mode='INT', cls='shape-complete')
+  + per_er('pop_int', 'h_pop_int', [(2, 1), (3, 0)], lambda e, r: ['ram_pop_cut.%d:%d' % (i, r + 2) for i in range(3)], ER, mode='INT', cls='shape-complete')
   + per_e('push_rollback', 'h_push_rollback', [1], lambda e: ['ram_push.0:%d' % (e + 4), 'ram_push.1:%d' % (e + 4), 'ram_node_ctor.0:%d' % (e + 1), 'ram_node_dtor.0:%d' % (e + 2)],
           es=[1, 2, 3], mode='INT', cls='shape-complete',
           note='end-to-end scenario on the original loop: a competing producer links its node between the load of next and the CAS')
@@ -111,9 +111,13 @@ UNIT = dict(
     # static_asserts that directly follow the two constants (none on the original tree)
     dict(name='XV_STATIC_ASSERTS', file=F, regex=r'static constexpr unsigned max_idx = [^;]+;\s*((?:static_assert\s*\((?:[^;"]|"[^"]*")*\)\s*;\s*)*)',
          subst=[(r'static_assert\s*\(((?:[^;",]|"[^"]*")*),\s*(?:"[^"]*"\s*)+\)\s*;\s*', r'(\1) && '), (r'^(.*)$', r'\1 1')]),
-    dict(name='XV_PUSH_SLOT_STMT', file=F, regex=r'(idx [^;]*);\s*marked_value expected = nullptr;'),
-    dict(name='XV_POP_SLOT_STMT', file=F, regex=r'(idx [^;]*);\s*auto value = h->entries\[idx\]'),
+    # the statement that maps the drawn counter value to an entry index in push / pop, the expression in ~node, and the variables they use
+    dict(name='XV_PUSH_SLOT_STMT', file=F, regex=r'\n\s*(\w+ [-+*/%&|^]?=[^;=]*);\s*marked_value \w+ = nullptr;'),
+    dict(name='XV_PUSH_SLOT_VAR', file=F, regex=r'\n\s*(\w+) [-+*/%&|^]?=[^;=]*;\s*marked_value \w+ = nullptr;'),
+    dict(name='XV_POP_SLOT_STMT', file=F, regex=r'\n\s*(\w+ [-+*/%&|^]?=[^;=]*);\s*auto \w+ = \w+->entries\[\w+\]'),
+    dict(name='XV_POP_SLOT_VAR', file=F, regex=r'\n\s*(\w+) [-+*/%&|^]?=[^;=]*;\s*auto \w+ = \w+->entries\[\w+\]'),
     dict(name='XV_DTOR_SLOT_EXPR', file=F, regex=r'traits::delete_value\(entries\[([^\]]+)\]'),
+    dict(name='XV_DTOR_SLOT_VAR', file=F, regex=r'~node\(\) override \{.*?for \(unsigned (\w+) = '),
   ],
   sources=[
     dict(NODE, id='node_ctor', sig=r'explicit node\(raw_value_type item\)', ctor=True,
